@@ -289,7 +289,7 @@ def _abstract(pre):
     if form == 0:
         return {"n": "abstract", "c": words(total, pre.pick([" ", "\n", "  "]))}
     if form == 1:
-        a = pre.int(0, total)
+        a = pre.pick([0, 0, pre.int(0, total)])     # a == 0: a para without text of its own next to the counted text
         ks = [{"n": "para", "c": words(a)}] if a else [{"n": "para"}]
         if total - a:
             ks.append({"n": "para", "c": words(total - a)})
